@@ -7,7 +7,10 @@ def _delay_cfgs(req):
 
 
 def classify(req, obs, rule):
-    # finding D17: the first delay is InitialInterval even when that exceeds MaxInterval
+    # finding D17 (open, pattern "initial>max"): with InitialInterval > MaxInterval the first failure on a message
+    # without usable delay metadata writes InitialInterval.  The monitor names exactly that case
+    # `delay_first_uncapped` (k = 1, observed delay = InitialInterval > MaxInterval) and reports it only when the
+    # case shows no other violation; here we additionally require the configuration in the request to have init > max.
     if rule == "violated:delay_first_uncapped" and any(c[0] > c[1] for c in _delay_cfgs(req)):
         return "initial>max"
     return None
@@ -16,25 +19,115 @@ def classify(req, obs, rule):
 def nontrivial(req, obs):
     f = req.split()
     if f[0] == "stack":
-        return f[1] != "-" and not obs.startswith("ret/-/none calls=000/n ")
+        # at least one middleware and something other than "handler returned nothing, nothing observable happened"
+        return f[1] != "-" and not (obs.startswith("ret/-/none ") and "calls=000/n " in obs and f[2] == "live/n/n")
     if f[0] == "delay":
-        return "F" in f[3]
+        return f[3].count("F") >= 2      # the recurrence is exercised
     return f[0] == "throttle" and int(f[1]) > 2
 
 
+_T = "Wm.Mw."
 PROP = {
     "id": "C19",
-    "lean_targets": ["WmModel.Props.C19"],
+    "lean_targets": ["WmModel.Props.C19", "WmModel.Props.C19Tie"],
     "audit_module": "Audit.C19",
-    "theorems": ["Wm.Mw.timeout_transparent", "Wm.Mw.timeout_deadline_visible_and_restored"],
-    "tie_theorems": [],
+    "theorems": [_T + n for n in [
+        "timeout_transparent", "timeout_deadline_visible_and_restored", "Old.timeout_leaves_context_done",
+        "correlation_transparent", "correlation_copied_not_overwritten",
+        "recoverer_never_escapes", "recoverer_transparent",
+        "ignore_errors_only_listed", "ignore_errors_cause",
+        "instant_ack_before_call", "throttle_transparent", "breaker_transparent",
+        "throttle_rate", "throttle_window_count", "throttle_model_admissible",
+        "delay_transparent", "delay_recurrence", "delay_seq_failures",
+        "delay_closed_form_bound_partial", "delay_capped_from_second", "delay_first_uncapped_witness",
+        "delay_gap_bound", "Old.delay_fraction_truncated",
+        "stack_context_restored", "simple_calls_inner_once", "compose_with_retry",
+        "compose_with_retry_attempts", "retry_own_attempts_all_fail",
+    ]],
+    "tie_theorems": ["Wm.GoMw." + n for n in [
+        "extracted_timeout_eq_model", "extracted_instantAck_eq_model", "extracted_throttle_eq_model",
+        "extracted_delayMw_eq_model", "extracted_applyDelay_eq_model",
+    ]],
     "harness": "c19",
-    "race": False,
+    "race": True,          # cases run on 16 goroutines and share one Throttle: data races in shared middleware state would show
     "driver": "drv_c19",
     "nontrivial": nontrivial,
     "classify": classify,
-    "rule": "",
-    "trusted_base": [],
-    "assumptions": [],
-    "explanation": "",
+    "rule": "stack: the bare handler and each of 19 configured middlewares (Timeout 1h / Timeout 0, CorrelationID, Recoverer, "
+            "IgnoreErrors x3 lists, InstantAck, Throttle, closed CircuitBreaker, DelayOnError x5 configurations incl. 2 with "
+            "init>max, Retry MaxRetries 0..3) x 16 handler results (outputs with/without/with-empty correlation id, plain / "
+            "pkg-errors-wrapped / fmt-%w-wrapped / nested errors, panics with string, empty string, error and nil) x 36 messages "
+            "(context live / cancelled / with deadline; correlation id absent / empty / set; delay metadata absent / 2µs / empty / "
+            "unparseable), exhaustively; every ordered pair and (enumerated by kind, with Retry at each position) ordered triples "
+            "with at most one Retry, multi-attempt scripts (fail k times then succeed / panic / listed-unlisted mixes) and "
+            "messages drawn from the seed. Observed per case: result, and for every handler invocation Deadline() ok, ctx.Err(), "
+            "Acked, delay metadata; afterwards msg.Context() identity/Deadline/Err, Acked, delay keys, remaining metadata. "
+            "delay: DelayOnError called repeatedly on one message for every failure/success sequence up to length 6 (quick) / 8 "
+            "(thorough) x 7 configurations (multipliers 1, 1.5, 2, 2.5, 3) x prior metadata, plus seeded random configurations "
+            "(multipliers k/1, k/2, k/4; durations < 2^44 ns so that float64 arithmetic is exact), metadata read after each call. "
+            "throttle: n sequential calls through a fresh Throttle against the real clock, only the lower bound "
+            "(n-2)·period ≤ elapsed is judged. Non-trivial = a stack case with a middleware and an observable effect, a delay "
+            "sequence with >= 2 failures, a throttle case with > 2 starts; distinct = distinct (request, observation) pairs.",
+    "trusted_base": [
+        "Lean 4.33.0 kernel; axioms per theorem listed under theorem_axioms (subset of propext, Classical.choice, Quot.sound)",
+        "hand-written model WmModel/Middleware.lean: Go defer/recover semantics (deferred restore runs on return and on panic), "
+        "context.WithTimeout as 'child context with a deadline, done at once iff timeout <= 0', Metadata as association list",
+        "float64: Multiplier is modelled as an exact rational num/den and time.Duration(float64(d)*Multiplier) as the floor of the "
+        "exact product; this is exact for the multipliers and durations the harness uses (k/1, k/2, k/4, d < 2^44 ns); float "
+        "rounding for other multipliers is outside the model",
+        "time.Duration.String / time.ParseDuration round trip (the harness checks every delayed_for value it reads is in canonical "
+        "form), RFC 3339 formatting of delayed_until (only presence is compared)",
+        "github.com/pkg/errors Cause/Wrap/WithStack and fmt.Errorf %w as modelled by Err.cause / Err.text; the text of a recovered "
+        "panic error contains a stack trace and is assumed never to equal a listed error text",
+        "sony/gobreaker v1.0.0 in closed state with ReadyToTrip = never (Execute calls the function once, re-panics the same value)",
+        "Retry is modelled minimally (attempt rule, single read of msg.Context() after the first attempt, outputs dropped when "
+        "retries are exhausted); back-off waits, MaxElapsedTime and the hook are C12's subject",
+        "time.Ticker as a one-slot channel fed at multiples of the period (validRun); real timing is sampled by one inequality only",
+        "extractor harness/cmd/extract/c19.go (go/ast printer of five bodies + structural facts) and the interpreters "
+        "WmModel/GoMw.lean as the semantics of those Go statements",
+        "differential harness harness/cmd/c19 + Lean driver Driver/C19.lean (model printer and the independently written monitor)",
+        "Go race detector for data-race freedom of the shared Throttle / DelayOnError values (runtime fact, not a theorem)",
+    ],
+    "assumptions": [
+        "handlers leave on the message the context they found (CtxNeutral); a handler that itself replaces the message context "
+        "and does not put it back is outside compose_with_retry (Timeout still restores its own original)",
+        "outputs are distinct non-nil messages built with NewMessage (non-nil Metadata) and different from the incoming message",
+        "durations are non-negative; Multiplier >= 1 (num >= den > 0)",
+        "'k-th consecutive failure' counts the failures of this message since its delay metadata was absent or unparseable; a "
+        "success in between writes nothing (clause 'successes untouched') and therefore neither counts nor restarts the chain; "
+        "a parseable prior delayed_for value d0 is the 'previous delay': the k-th failure then yields min(d0·m^k, max)",
+        "the delay equals min(Initial·m^(k-1), Max) up to the rounding of each multiplication to whole nanoseconds "
+        "(delay_closed_form_bound_partial: short by at most gapBound/den^(k-1) < (m^(k-1)-1)/(m-1) ns, exact for integer m)",
+        "'handler starts no faster than the configured rate' is read as the window bound: n further starts take at least (n-1)·d, "
+        "a window of length L holds at most L/d + 2 starts – one tick may wait in the ticker's slot after an idle phase, so two "
+        "starts can be arbitrarily close (DESIGN.md Appendix B states L/d + 1, which the one-slot ticker does not satisfy)",
+        "'lacks a correlation id' = Metadata.Get(correlation_id) == \"\"; the key is set even when the incoming id is empty",
+        "a Retry placed inside a Timeout that is already expired when it starts stops after one attempt: that is Retry's documented "
+        "reaction to a done context, not a leak of Timeout's effect (excluded from compose_with_retry by retryOutsideExpired)",
+    ],
+    "explanation": "Transparency theorems hold for every wrapped handler function and every message state; compose_with_retry "
+                   "shows for stacks of any length and order that Retry's read of the message context never decides (the run "
+                   "equals the run in which Retry ignores the context), because every middleware leaves the context as it found "
+                   "it (Timeout restores it even on panic). DelayOnError is proved over exact integers for every rational "
+                   "multiplier >= 1; the first-delay cap is open finding D17 (guarded theorem + witness). Five closure bodies are "
+                   "re-extracted from the source on every run and proved equal to the model; 48 structural facts pin the rest. "
+                   "The harness runs the real middlewares on ~20k (quick) cases and both diffs them against the model and "
+                   "evaluates the statement clause by clause with an independently written monitor.",
+    "level_text": "Theorems (kernel-checked, no sorry) over a hand-written executable model of the nine middlewares: transparency for "
+                  "all handlers/messages, context restoration and Retry composition for all stacks, DelayOnError closed form for "
+                  "all rational multipliers >= 1 and all k (guard init <= max, finding D17), throttle window bound over an abstract "
+                  "ticker; the tie to the Go code is a checked correspondence (generated bodies + facts + differential harness with "
+                  "a property monitor), which is sampling, not proof.",
+    "level_note": "Proved for the model: timeout_*, correlation_*, recoverer_*, ignore_errors_*, instant_ack_before_call, "
+                  "throttle_transparent/rate/window_count, breaker_transparent, delay_transparent/recurrence/seq_failures/"
+                  "capped_from_second/gap_bound, stack_context_restored, simple_calls_inner_once, compose_with_retry(_attempts), "
+                  "retry_own_attempts_all_fail. Conditional: delay_closed_form_bound_partial (guard InitialInterval <= MaxInterval; "
+                  "the unguarded statement is false, witness delay_first_uncapped_witness = open finding D17 'initial>max'). "
+                  "Witnesses of repaired defects: Old.timeout_leaves_context_done (D2), Old.delay_fraction_truncated (D3). "
+                  "Model-validated only: real time (Timeout's deadline firing, Throttle's rate on the wall clock – one lower-bound "
+                  "inequality), float64 rounding for multipliers that are not small dyadic rationals, gobreaker outside the closed "
+                  "state, Retry's back-off (C12). Tie: extracted_{timeout,instantAck,throttle,delayMw,applyDelay}_eq_model re-proved "
+                  "against the bodies extracted on every run, 48 structural facts, differential harness + monitor.",
+    "technique": "Lean 4 theorems over a hand-written executable model + generated deep-embedded bodies with tie theorems + "
+                 "structural facts + differential correspondence check (model diff and property monitor) against the Go code",
 }
